@@ -84,47 +84,74 @@ Definition eqb_chk (a b : chk) : bool :=
   | Pass, Pass => true | Boom, Boom => true | Fail x, Fail y => eqb_err x y | _, _ => false
   end.
 
-(* transaction level (C01, C02): verdict of processTransactions / ProcessBlock and the unspent set *)
-Definition utxo_matches (s : state) (d : dump) : bool := eqb_list eqb_trip (sorted_utxo s) (d_utxo d).
-Fixpoint replay_txn (i : Z) (s : state) (l : list (block * outcome * dump)) : list Z :=
-  match l with
-  | [] => []
-  | (b, o, d) :: r =>
-      match chain s with
-      | [] => [i]
-      | head :: _ =>
-          let tx := process_txns (utxo s) head (b_txns b) in
-          match o with
-          | Accepted =>
-              match get_array (all_ins (b_txns b)) (utxo s) with
-              | Some spent =>
-                  let s' := apply_block s b spent in
-                  if eqb_chk tx Pass && insert_okb s b && utxo_matches s' d then replay_txn (i + 1) s' r else [i]
-              | None => [i]
-              end
-          | Rejected e =>
-              let ok :=
-                if pre_err e then true                       (* refused before the transactions were looked at *)
-                else if post_err e then eqb_chk tx Pass       (* the transactions had passed *)
-                else match e with
-                     | EUnspentMissing | EInsertTwice =>       (* also raised by Unspents.ProcessBlock *)
-                         eqb_chk tx (Fail e) ||
-                         (eqb_chk tx Pass &&
-                          match get_array (all_ins (b_txns b)) (utxo s) with
-                          | None => eqb_err e EUnspentMissing
-                          | Some _ => eqb_err e EInsertTwice && negb (insert_okb s b)
-                          end)
-                     | _ => eqb_chk tx (Fail e)
-                     end in
-              if ok && utxo_matches s d then replay_txn (i + 1) s r else [i]
-          | Crashed => if eqb_chk tx Boom then replay_txn (i + 1) s r else [i]
-          end
-      end
+(* transaction level (C01, C02): verdict of processTransactions / ProcessBlock and
+   the unspent set. `rel` selects the error classes of the checks the property's
+   proof rests on: C02 = inputs unspent / not spent twice / created ids new;
+   C01 = those plus the coin sums. Signature, format and coin-hour checks are
+   other properties' business: a difference there is not reported here (the
+   model then follows the implementation). *)
+Definition rel_c02 (e : err) : bool :=
+  match e with
+  | EUnspentMissing | ENoInputs | EDupSpend | EDupOut | EDupOutAcross | EOutInPool | ECollide
+  | EDupTxn | EDoubleSpend | EInsertTwice => true
+  | _ => false
   end.
-Definition replay_txn_mism (h : history) : list Z :=
-  let s0 := init_state (hi_genesis h) in
-  if utxo_matches s0 (hi_d0 h) && (genesis_volume (hi_genesis h) =? hi_volume h)
-  then replay_txn 1 s0 (hi_steps h) else [0].
+Definition rel_c01 (e : err) : bool :=
+  rel_c02 e ||
+  match e with
+  | EOutOverflow | EInOverflow | EOutOverflow2 | EInsufficientCoins | EDestroyCoins => true
+  | _ => false
+  end.
+Definition utxo_matches (s : state) (d : dump) : bool := eqb_list eqb_trip (sorted_utxo s) (d_utxo d).
+Section ReplayTxn.
+  Variable rel : err -> bool.
+  (* the model may accept, or refuse for a reason that is not this property's *)
+  Definition tolerated (tx : chk) : bool :=
+    match tx with Pass => true | Fail e => negb (rel e) | Boom => false end.
+  Fixpoint replay_txn (i : Z) (s : state) (l : list (block * outcome * dump)) : list Z :=
+    match l with
+    | [] => []
+    | (b, o, d) :: r =>
+        match chain s with
+        | [] => [i]
+        | head :: _ =>
+            let tx := process_txns (utxo s) head (b_txns b) in
+            match o with
+            | Accepted =>
+                match get_array (all_ins (b_txns b)) (utxo s) with
+                | Some spent =>
+                    let s' := apply_block s b spent in
+                    if tolerated tx && insert_okb s b && utxo_matches s' d then replay_txn (i + 1) s' r else [i]
+                | None => [i]
+                end
+            | Rejected e =>
+                let ok :=
+                  if pre_err e then true                       (* refused before the transactions were looked at *)
+                  else if post_err e then tolerated tx         (* the transactions had passed *)
+                  else match tx with
+                       | Fail e' =>
+                           (* a failing check of this property must be reported as such;
+                              a failure of another property's check is not compared *)
+                           if rel e' then eqb_err e e' else true
+                       | Pass =>
+                           if rel e then                       (* only Unspents.ProcessBlock is left *)
+                             match get_array (all_ins (b_txns b)) (utxo s) with
+                             | None => eqb_err e EUnspentMissing
+                             | Some _ => eqb_err e EInsertTwice && negb (insert_okb s b)
+                             end
+                           else true
+                       | Boom => false
+                       end in
+                if ok && utxo_matches s d then replay_txn (i + 1) s r else [i]
+            | Crashed => if eqb_chk tx Boom then replay_txn (i + 1) s r else [i]
+            end
+        end
+    end.
+  Definition replay_txn_mism (h : history) : list Z :=
+    let s0 := init_state (hi_genesis h) in
+    if utxo_matches s0 (hi_d0 h) && (genesis_volume (hi_genesis h) =? hi_volume h)
+    then replay_txn 1 s0 (hi_steps h) else [0].
+End ReplayTxn.
 
 (* header level (C04): signature, genesis, header and checksum checks, the
    stored head. The model's checksum and unspent set are not used to predict
